@@ -364,6 +364,17 @@ def paramsGo (q : Option Bytes) : Nat → Option Param → List Param
 def queryParams (q : Option Bytes) : List Param :=
   paramsGo q ((q.getD []).length + 1) none
 
+/-- the `aws_array_list_push_back` loop of `aws_query_string_params` on an output list that may already hold
+entries: every param goes *behind* what is there.  `cap = some c`: a static list of `c` slots, where push_back
+fails (AWS_ERROR_LIST_EXCEEDS_MAX_SIZE) once the list is full and the function returns at once;
+`cap = none`: a dynamic list, which grows.  Result: the list and whether the call succeeded. -/
+def pushParams {α : Type} (cap : Option Nat) : List α → List α → List α × Bool
+  | out, [] => (out, true)
+  | out, p :: rest =>
+    match cap with
+    | some c => if out.length < c then pushParams cap (out ++ [p]) rest else (out, false)
+    | none => pushParams cap (out ++ [p]) rest
+
 /-- bytes of a view -/
 def View.bytes (v : View) (s : Bytes) : Bytes := (s.drop v.off).take v.len
 
